@@ -86,6 +86,12 @@ pub struct UnitAst {
     pub abs: bool,
     /// spelled mnemonics written in this unit (after removing the path prefix for relative units)
     pub mnems: Vec<Mnem>,
+    /// for a relative unit: how the *target declaration* reads the path mnemonics it is resolved
+    /// against (both forms of its own nodes).  Where these differ from the forms of the node
+    /// that wrote the path mnemonic (sibling nodes with a common spelling, `VOLT` / `VOLTage`),
+    /// exchanging short and long form is not meaning-preserving and the renderer keeps the
+    /// written form.
+    pub rel_prefix: Vec<Mnem>,
     /// raw header text override (faults that are not expressible as mnemonics)
     pub raw_header: Option<Vec<u8>>,
     pub query: bool,
@@ -150,6 +156,10 @@ fn apply_case(s: &str, case: u8, rng: &mut Rng) -> String {
 
 impl UnitAst {
     pub fn render(&self, style: &Style, rng: &mut Rng, out: &mut Vec<u8>) {
+        self.render_pinned(style, rng, out, &[])
+    }
+    /// `pinned[i]`: mnemonic i keeps its written form whatever `style.flip_form` says.
+    pub fn render_pinned(&self, style: &Style, rng: &mut Rng, out: &mut Vec<u8>, pinned: &[bool]) {
         out.extend_from_slice(&style.ws_unit_start);
         if let Some(raw) = &self.raw_header {
             out.extend_from_slice(raw);
@@ -163,7 +173,7 @@ impl UnitAst {
                     out.push(b':');
                 }
                 let mut short = m.use_short;
-                if style.flip_form > 0 && rng.below(8) < style.flip_form as usize {
+                if style.flip_form > 0 && rng.below(8) < style.flip_form as usize && !pinned.get(i).copied().unwrap_or(false) {
                     short = !short;
                 }
                 let s = if short { &m.short } else { &m.long };
@@ -202,11 +212,12 @@ impl MsgAst {
     pub fn render(&self, style: &Style) -> Vec<u8> {
         let mut rng = Rng::new(style.seed);
         let mut out = Vec::new();
+        let pins = if style.flip_form > 0 { self.form_pins() } else { vec![] };
         for (i, u) in self.units.iter().enumerate() {
             if i > 0 {
                 out.push(b';');
             }
-            u.render(style, &mut rng, &mut out);
+            u.render_pinned(style, &mut rng, &mut out, pins.get(i).map(|p| p.as_slice()).unwrap_or(&[]));
         }
         if self.trailing_semicolon {
             out.push(b';');
@@ -216,6 +227,56 @@ impl MsgAst {
         }
         out.push(b'\n');
         out
+    }
+    /// Which written mnemonics must keep their form when short and long forms are exchanged:
+    /// a path mnemonic that a later relative unit reads as a form of a *different* node (sibling
+    /// nodes that share a spelling).  The path is the spelled header prefix (C02), so for those
+    /// an exchange changes what the later unit is resolved against.
+    pub fn form_pins(&self) -> Vec<Vec<bool>> {
+        let mut pins: Vec<Vec<bool>> = self.units.iter().map(|u| vec![false; u.mnems.len()]).collect();
+        // the current path as (unit, mnemonic index) origins
+        let mut cur: Vec<(usize, usize)> = Vec::new();
+        let mut known = true;
+        for (ui, u) in self.units.iter().enumerate() {
+            if u.raw_header.is_some() {
+                known = false;
+                continue;
+            }
+            if u.mnems.first().map(|m| m.long.starts_with('*')).unwrap_or(false) {
+                continue;
+            }
+            let relative = !u.abs && ui > 0;
+            if relative && !known {
+                // the path is not known to this function: keep every earlier mnemonic as written
+                for p in pins.iter_mut().take(ui) {
+                    p.iter_mut().for_each(|b| *b = true);
+                }
+            }
+            let mut full: Vec<(usize, usize)> = Vec::new();
+            if relative && known {
+                if u.rel_prefix.len() != cur.len() {
+                    for (pu, pm) in &cur {
+                        pins[*pu][*pm] = true;
+                    }
+                }
+                else {
+                    for ((pu, pm), want) in cur.iter().zip(&u.rel_prefix) {
+                        let have = &self.units[*pu].mnems[*pm];
+                        if have.long != want.long || have.short != want.short {
+                            pins[*pu][*pm] = true;
+                        }
+                    }
+                }
+                full.extend(cur.iter().copied());
+            }
+            full.extend((0..u.mnems.len()).map(|mi| (ui, mi)));
+            full.pop();
+            cur = full;
+            if u.abs || ui == 0 {
+                known = true;
+            }
+        }
+        pins
     }
     pub fn expects(&self) -> Vec<Expect> {
         self.units.iter().flat_map(|u| u.expects.iter().cloned()).collect()
@@ -556,7 +617,8 @@ impl Gen {
         else {
             (true, 0)
         };
-        let mnems = self.mnems_for(di, sp, skip);
+        let mut mnems = self.mnems_for(di, sp, 0);
+        let rel_prefix: Vec<Mnem> = mnems.drain(..skip).collect();
         if !common {
             *path = sp[..sp.len() - 1].to_vec();
         }
@@ -574,6 +636,7 @@ impl Gen {
         let mut u = UnitAst {
             abs,
             mnems,
+            rel_prefix,
             raw_header: None,
             query: d.query,
             lits,
@@ -767,6 +830,7 @@ impl Gen {
             return Some(UnitAst {
                 abs: false,
                 mnems,
+                rel_prefix: vec![],
                 raw_header: None,
                 query,
                 lits: vec![],
